@@ -82,6 +82,7 @@ type Cmd struct {
 	Kind     string
 	Keys     []string
 	Injected bool
+	Seq      int // position among the commands of the case since the last ArmNth/Disarm
 }
 
 type fault struct {
@@ -96,81 +97,83 @@ type Hook struct {
 	prefix string
 	faults []*fault
 	trace  []Cmd
+	// position-based plan: fail the nth command (counted from ArmNth on, whatever its name)
+	// that touches a key of the case, and, when sticky, every later one as well
+	nth    int
+	sticky bool
+	seen   int
 }
 
 func (h *Hook) DialHook(next red.DialHook) red.DialHook { return next }
 
-func (h *Hook) ProcessPipelineHook(next red.ProcessPipelineHook) red.ProcessPipelineHook {
-	return next
-}
-
-func classify(cmd red.Cmder) (kind string, keys []string) {
+// classify names a command and lists the arguments that are keys of the running case.  The
+// four commands the cache is known to use get fixed kinds; ANY other command that mentions a
+// key of the case is traced (and can be failed) under its own lower-case name, so that a
+// command the code under test starts to use tomorrow (EXPIRE, GETSET, ...) is not invisible.
+func classify(cmd red.Cmder, prefix string) (kind string, keys []string) {
 	args := cmd.Args()
-	str := func(i int) string {
-		if i < len(args) {
-			return fmt.Sprint(args[i])
+	for i := 1; i < len(args); i++ {
+		if s, ok := args[i].(string); ok && prefix != "" && strings.HasPrefix(s, prefix) {
+			keys = append(keys, s)
 		}
-		return ""
 	}
-	switch strings.ToLower(cmd.Name()) {
-	case "get":
-		return KGet, []string{str(1)}
-	case "setnx":
-		return KSetNX, []string{str(1)}
+	if len(keys) == 0 {
+		return "", nil
+	}
+	kind = strings.ToLower(cmd.Name())
+	switch kind {
 	case "setex", "psetex":
-		return KSet, []string{str(1)}
-	case "set":
 		kind = KSet
+	case "set":
 		for i := 3; i < len(args); i++ {
 			if strings.EqualFold(fmt.Sprint(args[i]), "nx") {
 				kind = KSetNX
 			}
 		}
-		return kind, []string{str(1)}
-	case "del", "unlink":
-		for i := 1; i < len(args); i++ {
-			keys = append(keys, str(i))
-		}
-		return KDel, keys
+	case "unlink":
+		kind = KDel
 	}
-	return "", nil
+	return kind, keys
+}
+
+// decide is called with h.mu held for a command (or pipeline) that touches the case.
+func (h *Hook) decide(kind string, keys []string) (inject bool) {
+	h.seen++
+	switch {
+	case h.nth > 0 && h.seen == h.nth:
+		inject = true
+	case h.nth > 0 && h.sticky && h.seen > h.nth:
+		inject = true
+	}
+	for _, f := range h.faults {
+		if inject {
+			break
+		}
+		if f.n == 0 || f.kind != kind {
+			continue
+		}
+		for _, k := range keys {
+			if k == f.key {
+				inject = true
+			}
+		}
+		if inject && f.n > 0 {
+			f.n--
+		}
+	}
+	h.trace = append(h.trace, Cmd{Kind: kind, Keys: keys, Injected: inject, Seq: h.seen})
+	return inject
 }
 
 func (h *Hook) ProcessHook(next red.ProcessHook) red.ProcessHook {
 	return func(ctx context.Context, cmd red.Cmder) error {
-		kind, keys := classify(cmd)
-		if kind == "" {
-			return next(ctx, cmd)
-		}
 		h.mu.Lock()
-		mine := false
-		for _, k := range keys {
-			if h.prefix != "" && strings.HasPrefix(k, h.prefix) {
-				mine = true
-			}
-		}
-		if !mine {
+		kind, keys := classify(cmd, h.prefix)
+		if kind == "" {
 			h.mu.Unlock()
 			return next(ctx, cmd)
 		}
-		inject := false
-		for _, f := range h.faults {
-			if f.n == 0 || f.kind != kind {
-				continue
-			}
-			for _, k := range keys {
-				if k == f.key {
-					inject = true
-				}
-			}
-			if inject {
-				if f.n > 0 {
-					f.n--
-				}
-				break
-			}
-		}
-		h.trace = append(h.trace, Cmd{Kind: kind, Keys: keys, Injected: inject})
+		inject := h.decide(kind, keys)
 		h.mu.Unlock()
 		if inject {
 			return ErrInjected
@@ -179,10 +182,37 @@ func (h *Hook) ProcessHook(next red.ProcessHook) red.ProcessHook {
 	}
 }
 
+// A pipeline that touches the case counts as one command named "pipeline"; it is failed as
+// a whole (a partially executed pipeline cannot be produced from the client side).
+func (h *Hook) ProcessPipelineHook(next red.ProcessPipelineHook) red.ProcessPipelineHook {
+	return func(ctx context.Context, cmds []red.Cmder) error {
+		h.mu.Lock()
+		var keys []string
+		for _, c := range cmds {
+			_, ks := classify(c, h.prefix)
+			keys = append(keys, ks...)
+		}
+		if len(keys) == 0 {
+			h.mu.Unlock()
+			return next(ctx, cmds)
+		}
+		inject := h.decide("pipeline", keys)
+		h.mu.Unlock()
+		if inject {
+			for _, c := range cmds {
+				c.SetErr(ErrInjected)
+			}
+			return ErrInjected
+		}
+		return next(ctx, cmds)
+	}
+}
+
 // Reset forgets faults and trace and makes prefix the prefix of the keys that count.
 func (h *Hook) Reset(prefix string) {
 	h.mu.Lock()
 	h.prefix, h.faults, h.trace = prefix, nil, nil
+	h.nth, h.sticky, h.seen = 0, false, 0
 	h.mu.Unlock()
 }
 
@@ -193,11 +223,63 @@ func (h *Hook) Arm(kind, key string, n int) {
 	h.mu.Unlock()
 }
 
+// ArmNth starts counting the commands that touch the case and fails the k-th one (k >= 1),
+// whatever its name; sticky: and every one after it, until Disarm.
+func (h *Hook) ArmNth(k int, sticky bool) {
+	h.mu.Lock()
+	h.nth, h.sticky, h.seen = k, sticky, 0
+	h.mu.Unlock()
+}
+
 // Disarm drops all armed faults.
 func (h *Hook) Disarm() {
 	h.mu.Lock()
 	h.faults = nil
+	h.nth, h.sticky, h.seen = 0, false, 0
 	h.mu.Unlock()
+}
+
+// ParseNth recognises the fault names "nth:K" (only the K-th command of the call fails) and
+// "nth+:K" (the K-th and every later one).
+func ParseNth(fault string) (k int, sticky, ok bool) {
+	switch {
+	case strings.HasPrefix(fault, "nth+:"):
+		sticky = true
+		fault = fault[5:]
+	case strings.HasPrefix(fault, "nth:"):
+		fault = fault[4:]
+	default:
+		return 0, false, false
+	}
+	for _, c := range fault {
+		if c < '0' || c > '9' {
+			return 0, false, false
+		}
+		k = k*10 + int(c-'0')
+	}
+	return k, sticky, k > 0
+}
+
+// OtherWriteFailed reports whether the hook failed a command that is neither GET nor DEL
+// (SET, SET NX, or any command the harness has no name for): the call's write to the cache
+// did not go through completely.
+func OtherWriteFailed(trace []Cmd) bool {
+	for _, c := range trace {
+		if c.Injected && c.Kind != KGet && c.Kind != KDel {
+			return true
+		}
+	}
+	return false
+}
+
+// FailedKinds lists the kinds of the commands the hook failed, in order.
+func FailedKinds(trace []Cmd) (out []string) {
+	for _, c := range trace {
+		if c.Injected {
+			out = append(out, c.Kind)
+		}
+	}
+	return out
 }
 
 // Take returns the trace collected so far and clears it.
@@ -454,7 +536,10 @@ type Want struct {
 	TTL         TTLRule
 	// Loose: the operation was hit by an injected fault (or the key awaits a retried
 	// invalidation); whatever is stored is accepted as long as it is lawful (see Settle).
-	Loose bool
+	// The TTL clause is not relaxed: an entry this operation wrote must satisfy TTL (a value)
+	// resp. MarkerTTL (the not-found marker) when those rules are given.
+	Loose     bool
+	MarkerTTL TTLRule
 	// Keep: the entry must be exactly what the model already holds (a hit changes nothing).
 	Keep bool
 	// MayVanish: like Keep, but the operation may as well have removed the entry.
@@ -699,6 +784,14 @@ func (w *World) Settle(want map[string]Want) {
 		}
 		if wt.Loose {
 			w.lawful(k, s)
+			if s.Present && w.diff(k, old, s) != "" { // written (or rewritten) by this operation
+				switch {
+				case s.Raw == Placeholder && wt.MarkerTTL.Why != "":
+					w.ttl(k, s, wt.MarkerTTL)
+				case s.Raw != Placeholder && wt.TTL.Why != "":
+					w.ttl(k, s, wt.TTL)
+				}
+			}
 			w.adopt(k, s)
 			continue
 		}
@@ -907,8 +1000,8 @@ const (
 	PlanWaiterGet    = "waiter-get-fails"    // every GET of the key after the leader's is failed by the hook
 )
 
-// Plans is what a concurrent round draws from (half of the rounds run on a healthy store).
-var Plans = []string{PlanNone, PlanNone, PlanNone, PlanNone, PlanWriteBack, PlanWriteBack, PlanOutageDuring, PlanOutageBefore, PlanWaiterGet}
+// Plans is what a concurrent round draws from (3 of 8 rounds run on a healthy store).
+var Plans = []string{PlanNone, PlanNone, PlanNone, PlanWriteBack, PlanWriteBack, PlanOutageDuring, PlanOutageBefore, PlanWaiterGet}
 
 // AwaitReaders waits (bounded) until the first query is held at the gate and all other
 // readers are parked in its flight.  It reports whether that state was reached.
@@ -930,4 +1023,61 @@ func AwaitReaders(g int, started, queries func() int64, maxInflight func() int64
 		time.Sleep(50 * time.Microsecond)
 	}
 	return false
+}
+
+// WriteFailed reports whether a command other than GET / DEL was failed during the operation
+// (by the hook, or - under an outage - by the server): the call's write did not go through.
+func WriteFailed(trace []Cmd, outage bool) bool {
+	for _, c := range trace {
+		if c.Kind != KGet && c.Kind != KDel && (c.Injected || outage) {
+			return true
+		}
+	}
+	return false
+}
+
+// NoteNth records, for a position-based fault, the drawn k and the names of the commands
+// that were failed ("unconsumed" when the call issued fewer than k commands).
+func (w *World) NoteNth(fault string, trace []Cmd) {
+	k, sticky, ok := ParseNth(fault)
+	if !ok {
+		return
+	}
+	name := "nth"
+	if sticky {
+		name = "nth+"
+	}
+	w.St.Class(fmt.Sprintf("%s:k=%d", name, k))
+	kinds := FailedKinds(trace)
+	if len(kinds) == 0 {
+		w.St.Class(name + ":unconsumed(call issued fewer commands)")
+	}
+	for _, kd := range kinds {
+		w.St.Class(name + ":failed-cmd:" + kd)
+	}
+}
+
+// ArmFault installs a named fault for one operation: "outage", "nth:K", "nth+:K", or a
+// command kind (failed once on key).  Pads the breaker first.  Returns false if padding failed.
+func (w *World) ArmFault(fault, key string) bool {
+	if fault == "none" {
+		return true
+	}
+	k, sticky, nth := ParseNth(fault)
+	pad := 15
+	if sticky || fault == "outage" {
+		pad = 50 // a sticky fault fails every remaining command of the call (at most 4 per server)
+	}
+	if !w.Env.Pad(w.Nodes, pad) {
+		return false
+	}
+	switch {
+	case fault == "outage":
+		w.Env.Outage(true)
+	case nth:
+		w.Env.Hook.ArmNth(k, sticky)
+	default:
+		w.Env.Hook.Arm(fault, key, 1)
+	}
+	return true
 }
